@@ -254,6 +254,29 @@ macro_rules! ops_for_float {
                     [p.color.red, p.color.green, p.color.blue, p.alpha, q.color.red, q.color.green, q.color.blue, q.alpha]
                 });
                 $n += 1;
+                // every other way out of the premultiplied form (zero alpha is a boundary of the property)
+                let case = json!({"type": "LinSrgba", "float": tn, "a": [r as f64, g as f64, b as f64, a as f64]});
+                finite3!($c, format!("C07/blend/LinSrgba<{}>/unpremultiply-routes", tn), case.clone(), {
+                    use palette::blend::Premultiply;
+                    let p: PreAlpha<LinSrgb<T>> = LinSrgba::<T>::new(r, g, b, a).premultiply();
+                    let plain: LinSrgb<T> = LinSrgb::<T>::from(p);
+                    let viaalpha: LinSrgba<T> = LinSrgba::<T>::from(p);
+                    let (c2, a2) = <LinSrgb<T> as Premultiply>::unpremultiply(p);
+                    let p2: PreAlpha<LinSrgb<T>> = PreAlpha::new(LinSrgb::<T>::new(r, g, b), a);
+                    let p3: PreAlpha<LinSrgb<T>> = PreAlpha::from(LinSrgba::<T>::new(r, g, b, a));
+                    let back3: LinSrgb<T> = p3.into();
+                    [plain.red, plain.green, plain.blue, viaalpha.red, viaalpha.green, viaalpha.blue, viaalpha.alpha, c2.red, c2.green, c2.blue, a2, p2.color.red, p2.alpha, back3.red, back3.green, back3.blue]
+                });
+                finite3!($c, format!("C07/blend/Laba<{}>/unpremultiply-routes", tn), case, {
+                    use palette::blend::Premultiply;
+                    type L<T> = palette::Lab<palette::white_point::D65, T>;
+                    let lab: L<T> = palette::Lab::new(r * (100.0 as T), (g - (0.5 as T)) * (255.0 as T), (b - (0.5 as T)) * (255.0 as T));
+                    let p: PreAlpha<L<T>> = lab.premultiply(a);
+                    let plain: L<T> = L::<T>::from(p);
+                    let q = p.unpremultiply();
+                    [p.color.l, p.color.a, p.color.b, p.alpha, plain.l, plain.a, plain.b, q.color.l, q.color.a, q.color.b, q.alpha]
+                });
+                $n += 2;
             }
         }
     }};
@@ -269,6 +292,6 @@ pub fn run(ctx: &Ctx, total: &mut Collector) {
     ops_for_float!(f32, c, n);
     ops_for_float!(f64, c, n);
     c.add(sub, n, n, n, n);
-    c.exhaustive(sub, true, "boundary colours of Hsv/Hsl/Hwb/Okhsv/Okhsl/Lch/Oklch/Lab x 9 factors (lighten, darken, saturate, desaturate, _fixed forms, shift_hue) and mix partners; all ordered pairs of 120 Lab boundary colours through 11 difference measures; nearly coincident pairs (144 Lch colours x each component moved by 1..40 ulps and by a relative 1e-7 / 1e-5) through the difference measures of Lch, Lab, Cam16UcsJmh, Cam16UcsJab; all ordered pairs of 72 LinSrgba boundary colours through 11 blend modes, 6 Porter-Duff operators, WCAG contrast; premultiply/unpremultiply; f32 and f64");
+    c.exhaustive(sub, true, "boundary colours of Hsv/Hsl/Hwb/Okhsv/Okhsl/Lch/Oklch/Lab x 9 factors (lighten, darken, saturate, desaturate, _fixed forms, shift_hue) and mix partners; all ordered pairs of 120 Lab boundary colours through 11 difference measures; nearly coincident pairs (144 Lch colours x each component moved by 1..40 ulps and by a relative 1e-7 / 1e-5) through the difference measures of Lch, Lab, Cam16UcsJmh, Cam16UcsJab; all ordered pairs of 72 LinSrgba boundary colours through 11 blend modes, 6 Porter-Duff operators, WCAG contrast; premultiply/unpremultiply through every public route out of the premultiplied form (unpremultiply, From<PreAlpha<C>> for C and for Alpha<C>, Premultiply::unpremultiply; LinSrgb and Lab); f32 and f64");
     total.merge(c);
 }
